@@ -24,9 +24,7 @@ def specFrames (data : Bytes) : List Frame := parseFrames (afterPreface data)
 def oneShotKF (fr : List Frame) : List String :=
   (if KF.C17.emptyFirstSettings fr then ["KF.C17.emptyFirstSettings"] else []) ++
   (if KF.C17.zeroWindowIncrement fr then ["KF.C17.zeroWindowIncrement"] else []) ++
-  (if KF.C17.headersPaddedOrPriority fr then ["KF.C17.headersPaddedOrPriority"] else []) ++
-  (if KF.C17.headersContinued fr then ["KF.C17.headersContinued"] else []) ++
-  (if KF.C17.nonUtf8PseudoValue H fr then ["KF.C17.nonUtf8PseudoValue"] else [])
+  (if KF.C17.headersContinued fr then ["KF.C17.headersContinued"] else [])
 
 def hdrTag (fr : List Frame) : String :=
   match firstWithRest isRequestHeaders fr with
@@ -38,7 +36,9 @@ def hdrTag (fr : List Frame) : String :=
      | .complete b => (match (H.dec H.init b).1 with | some _ => "ok" | none => "undec")
      | .incomplete => "inc"
      | .malformed => "mal") ++
-    (match (H.dec H.init f.payload).1 with | some _ => "/rawok" | none => "/rawerr")
+    (match headerBlockOf (f :: r) with
+     | some b => (match (H.dec H.init b).1 with | some _ => "/codeok" | none => "/codeerr")
+     | none => "/codenone")
 
 def framesTag (data : Bytes) (fr : List Frame) : String :=
   (if hasPreface data then "P" else "-") ++
@@ -79,8 +79,7 @@ def inc (impl : String) : P Verdict := do
   let ps := prefixes [] chunks
   let legal := ps.all fun p => decide (Legal H (specFrames p))
   let specOuts := (reportOnce (fun d => fingerprint H (specFrames d)) [] false chunks).map (showFp ":")
-  let kf := (if KF.C17.frameBeforeSettingsChunk H chunks then ["KF.C17.frameBeforeSettingsChunk"] else []) ++
-    (ps.flatMap fun p => oneShotKF (specFrames p)).eraseDups
+  let kf := (ps.flatMap fun p => oneShotKF (specFrames p)).eraseDups
   let whole := chunks.flatten
   let nrep := (outs.filter (· != "0")).length
   let tag := s!"inc:{if chunks.length ≤ 3 then toString chunks.length else "n"}:rep{nrep}:" ++
